@@ -1,8 +1,10 @@
 SPECIFICATION GenSpec
 CONSTANTS
   K = 2
-  Reqs = {"g1", "g2", "g3", "g4", "g5", "g6", "g7", "g8"}
+  T = 2
+  Reqs = {1, 2, 3, 4, 5, 6, 7, 8, 9, 10}
   Pick <- PickOne
-  HistLen = 16
+  Ops = {"get", "finish", "getquick", "post", "tick"}
+  HistLen = 18
 INVARIANTS Emit
 CHECK_DEADLOCK FALSE
